@@ -59,7 +59,14 @@ def impl(case):
     from phylib.utils import event as EV
     if case['op'] == 'emitter':
         ev = EV.EventEmitter()
-        senders = [object(), object()]
+
+        class EmptySender(object):
+            """a sender that is falsy (an empty container-like object), compared by identity"""
+            def __len__(self):
+                return 0
+
+        senders = {'plain': [object(), object()], 'falsy': [EmptySender(), EmptySender()],
+                   'mixed': [object(), EmptySender()]}[case.get('senders', 'plain')]
         log = []
 
         class Owner(object):
@@ -231,6 +238,8 @@ def nontrivial(case):
 
 
 def tally(rep, case, impl_res, ans):
+    if case['op'] == 'emitter':
+        rep.count('senders:' + case.get('senders', 'plain'))
     rep.count('op:' + case['op'])
     rep.count('len:%d' % min(len(case['ops']), 8))
     if case['op'] == 'emitter':
@@ -263,10 +272,12 @@ def shrink(case):
 def gen(tier, rng):
     q = tier == 'quick'
     LE, LR = (3, 4) if q else (4, 5)
+    nemit = 0
     for L in range(1, LE + 1):
         for ops in itertools.product(E_ALPHA, repeat=L):
             if well_nested(ops) and any(o['k'] == 'emit' for o in ops):
-                yield dict(p=PID, op='emitter', ops=[dict(o) for o in ops])
+                nemit += 1
+                yield dict(p=PID, op='emitter', ops=[dict(o) for o in ops], senders=['plain', 'falsy', 'mixed'][nemit % 3])
     for L in range(1, LR + 1):
         for ops in itertools.product(R_ALPHA, repeat=L):
             yield dict(p=PID, op='reporter', ops=[dict(o) for o in ops])
@@ -284,6 +295,6 @@ def gen(tier, rng):
                     break
                 d += (o['k'] == 'enter') - (o['k'] == 'exit')
                 ops.append(dict(o))
-            yield dict(p=PID, op='emitter', ops=ops)
+            yield dict(p=PID, op='emitter', ops=ops, senders=rng.pick(['plain', 'falsy', 'mixed']))
         else:
             yield dict(p=PID, op='reporter', ops=[dict(rng.pick(R_ALPHA)) for _ in range(rng.randrange(3, 12))])
